@@ -80,8 +80,9 @@ def parseCfg? (ts : List String) : Option Cfg :=
 
 structure DS where
   cfg : Option Cfg := none
-  progs : List (List Call) := []
-  fin : Option Conf := none
+  sh : Sh := {}                      -- shared words: persist over the phases of a case
+  progs : List (List Call) := []     -- threads declared for the next `sched`
+  fin : Option (List Th) := none     -- threads of the last `sched` (all finished)
 
 /-- the token of one granted step -/
 def token (i : Nat) (frm : String) (s s' : Sh) (t t' : Th) : String :=
@@ -116,17 +117,17 @@ def drain (cfg : Cfg) : Nat → Conf → List String → Conf × List String
     drain cfg fuel c' acc'
 
 /-- the initial advance, with tokens -/
-def startT (cfg : Cfg) (progs : List (List Call)) : Conf × List String :=
-  let c := init cfg progs
+def startT (cfg : Cfg) (s0 : Sh) (progs : List (List Call)) : Conf × List String :=
+  let c := initFrom cfg s0 progs
   -- the tokens show the shared words after each thread's own prelude: recompute them incrementally
   let (_, _, toks) := progs.foldl (fun (p : Sh × Nat × List String) prog =>
     let (s, i, acc) := p
     let r := begin cfg s [] prog
-    (r.1, i + 1, acc ++ [token i "start" s r.1 ⟨.done, [], []⟩ r.2])) (({} : Sh), 0, [])
+    (r.1, i + 1, acc ++ [token i "start" s r.1 ⟨.done, [], []⟩ r.2])) (s0, 0, [])
   (c, toks)
 
-def runModel (cfg : Cfg) (progs : List (List Call)) (es : List Ent) : Conf × List String :=
-  let (c0, tk0) := startT cfg progs
+def runModel (cfg : Cfg) (s0 : Sh) (progs : List (List Call)) (es : List Ent) : Conf × List String :=
+  let (c0, tk0) := startT cfg s0 progs
   let (c1, tk1) := es.foldl (fun (p : Conf × List String) e =>
     let (c2, tk) := execT cfg p.1 e
     (c2, match tk with | some s => p.2 ++ [s] | none => p.2)) (c0, tk0)
@@ -141,28 +142,28 @@ def stepModel (s : DS) (ts : List String) (_ : String) : DS × Option String :=
   | "thread" :: tid :: calls =>
     match s.cfg, tid.toNat?, calls.mapM parseCall? with
     | some _, some i, some cs =>
-      if i = s.progs.length ∧ ¬ cs.isEmpty ∧ s.fin.isNone ∧ i < 8 then ({ s with progs := s.progs ++ [cs] }, none)
+      if i = s.progs.length ∧ ¬ cs.isEmpty ∧ i < 8 then ({ s with progs := s.progs ++ [cs] }, none)
       else (s, some "bad-op")
     | _, _, _ => (s, some "bad-op")
   | "sched" :: es =>
     match s.cfg, es.mapM parseEnt? with
     | some cfg, some es =>
-      if s.fin.isSome ∨ s.progs.isEmpty ∨ es.length > 400 then (s, some "bad-op") else
-      let (c, tks) := runModel cfg s.progs es
-      ({ s with fin := some c }, some (" ".intercalate tks))
+      if es.length > 400 then (s, some "bad-op") else
+      let (c, tks) := runModel cfg s.sh s.progs es
+      ({ s with sh := c.sh, progs := [], fin := some c.th }, some (if tks.isEmpty then "-" else " ".intercalate tks))
     | _, _ => (s, some "bad-op")
   | ["results"] =>
     match s.fin with
-    | some c => (s, some (" ".intercalate ((List.range c.th.length).zip c.th |>.map fun (i, t) =>
+    | some th => (s, some (" ".intercalate ((List.range th.length).zip th |>.map fun (i, t) =>
         s!"{i}:{showList (t.res.map tf)}")))
     | none => (s, some "bad-op")
   | ["log"] =>
     match s.fin with
-    | some c => (s, some (showList (c.sh.log.map noteS)))
+    | some _ => (s, some (showList (s.sh.log.map noteS)))
     | none => (s, some "bad-op")
   | ["final"] =>
     match s.fin with
-    | some c => (s, some s!"st={stc c.sh.st} dl={dls c.sh.deadline} probe={c.sh.probe} clk={c.sh.clock}")
+    | some _ => (s, some s!"st={stc s.sh.st} dl={dls s.sh.deadline} probe={s.sh.probe} clk={s.sh.clock}")
     | none => (s, some "bad-op")
   | _ => (s, some "bad-op")
 
@@ -264,7 +265,8 @@ structure OD where
   timeout : Nat := 0
   probeNum : Nat := 0
   cfgOk : Bool := false
-  nthreads : Nat := 0
+  nthreads : Nat := 0                -- threads declared since the last `sched`
+  lastN : Nat := 0                   -- threads of the last `sched`
   os : Option OS := none
   parseBad : Bool := false
 
@@ -283,15 +285,16 @@ def stepOracle (s : OD) (ts : List String) (line : String) : OD × Option String
     | none => (s, some "bad-op")
     | some r =>
       if r = "bad-op" then (s, some "bad-op") else
-      match (toks r).mapM parseRec? with
+      match (if r = "-" then some [] else (toks r).mapM parseRec?) with
       | none => ({ s with parseBad := true }, some "bad unreadable trace")
       | some recs =>
-        let o := recs.foldl (judgeRec s.timeout s.probeNum) {}
-        ({ s with os := some o }, some (verdict o.trBad))
+        let o0 : OS := match s.os with | some o => { o with ress := [], loads := [] } | none => {}
+        let o := recs.foldl (judgeRec s.timeout s.probeNum) o0
+        ({ s with os := some o, lastN := s.nthreads, nthreads := 0 }, some (verdict o.trBad))
   | ["results"] =>
     match s.os, resPart line with
     | some o, some r =>
-      let want := " ".intercalate ((List.range s.nthreads).map fun i =>
+      let want := " ".intercalate ((List.range s.lastN).map fun i =>
         s!"{i}:{showList ((o.ress.filter fun p => p.1 = i).map fun p => tf p.2)}")
       if r ≠ want then (s, some "bad results differ from the trace") else (s, some (verdict o.prBad))
     | _, _ => (s, some "bad-op")
